@@ -219,11 +219,16 @@ func runC12(ctx *Ctx) {
 			var b strings.Builder
 			b.WriteString("JSIGHT 0.3\n")
 			usePos := r.Intn(len(ord) + 1)
+			prelude := []string{"", "  204 empty\n", "  201 any\n  202 regex\n  /x/\n", "  201\n  {\"plain\": 1}\n", "  201\n  {\"plain\": 1}\n    Headers\n    {\"h\": 1}\n  203 empty\n"}[r.Intn(5)]
 			use := func() {
 				b.WriteString("POST /use\n  Query\n  " + strings.ReplaceAll(inhBody(&inhType{bases: user.bases, own: []string{"ownQuery"}}), "\n", "\n  ") + "\n")
 				b.WriteString("  Request\n    Headers\n    " + strings.ReplaceAll(inhBody(&inhType{bases: user.bases, own: []string{"ownHdr"}}), "\n", "\n    ") + "\n")
 				b.WriteString("    Body\n    " + strings.ReplaceAll(inhBody(user), "\n", "\n    ") + "\n")
+				// earlier responses without Headers, or with a body that is not a JSight schema, must not stop the
+				// expansion in the later ones
+				b.WriteString(prelude)
 				b.WriteString("  200\n  " + strings.ReplaceAll(inhBody(&inhType{bases: user.bases, own: []string{"ownResp"}}), "\n", "\n  ") + "\n")
+				b.WriteString("    Headers\n    " + strings.ReplaceAll(inhBody(&inhType{bases: user.bases, own: []string{"ownRH"}}), "\n", "\n    ") + "\n")
 			}
 			for k, j := range ord {
 				if k == usePos {
@@ -275,8 +280,10 @@ func runC12(ctx *Ctx) {
 			ok = ok && check("request body", it.Path("request", "body", "schema", "content"), wantUser("ownReq"))
 			ok = ok && check("request headers", it.Path("request", "headers", "schema", "content"), wantUser("ownHdr"))
 			ok = ok && check("query", it.Path("query", "schema", "content"), wantUser("ownQuery"))
-			if rs := it.Get("responses").Items(); len(rs) == 1 {
-				ok = ok && check("response body", rs[0].Path("body", "schema", "content"), wantUser("ownResp"))
+			if rs := it.Get("responses").Items(); len(rs) >= 1 {
+				last := rs[len(rs)-1]
+				ok = ok && check("response body", last.Path("body", "schema", "content"), wantUser("ownResp"))
+				ok = ok && check("response headers", last.Path("headers", "schema", "content"), wantUser("ownRH"))
 			}
 			// correspondence: the same store processed by the Lean model of the allOf code, in this catalog order
 			num := func(nm string) string { return strings.TrimPrefix(nm, "@t") }
